@@ -1,4 +1,5 @@
 CFG = dict(
+     claimed=True,
      rule="Cases: (limit N, source length, read-chunk script incl. zero-length reads, EOF-with-data or EOF-alone, optional sticky "
           "source error at an offset, consumer = buffer-size script | io.ReadAll | io.Copy/WriteTo) for LimitReadCloser, "
           "MultiReaderCloser (0..4 sources, closable or not) and TeeReadCloser (recording / failing writer); exhaustive sweeps for "
